@@ -3,7 +3,7 @@
 -/
 import FcModel.Spec.C07
 import Mathlib.Tactic.Ring
-namespace Fc
+namespace Fc.C07
 
 /-! ### blocks of equal length -/
 
@@ -164,7 +164,7 @@ theorem locationsIn_getElem? (shape : List Nat) (c : Nat) (h : c < prodNat shape
 
 /-! ### `_StructuredMeshBase.connectivity` -/
 
-open Spec
+open Fc.C07.Spec
 
 /-- cell type of the un-reordered rows: pixel / voxel order -/
 def pixelType (d : Nat) : String := match d with | 1 => "LINE" | 2 => "PIXEL" | 3 => "VOXEL" | _ => ""
@@ -270,7 +270,7 @@ theorem rectPoints_spec (ords : List (List Int)) (pos : List Nat)
     rw [prodX_getElem? 0 _ _ (flatten_lt _ _ h), unflatten_flatten _ _ h]
 
 theorem connectivity_spec (k : GridKind) (ex ey ez : Nat) (hpos : 0 < ex ∨ 0 < ey ∨ 0 < ez) :
-    gridCellType k [ex, ey, ez] = latticeType k (gridDim [ex, ey, ez]) ∧
+    normType (gridCellType k [ex, ey, ez]) = normType (latticeType k (gridDim [ex, ey, ez])) ∧
     ∃ rows, gridConnectivity k [ex, ey, ez] (gridCellType k [ex, ey, ez]) = some rows ∧
       rows.length = prodNat (nonzeroExtents [ex, ey, ez]) ∧
       ∀ c, c < prodNat (nonzeroExtents [ex, ey, ez]) →
@@ -285,7 +285,7 @@ theorem connectivity_spec (k : GridKind) (ex ey ez : Nat) (hpos : 0 < ex ∨ 0 <
     cases k
   all_goals
     simp [gridCellType, pyIndexPred, Gen.c07ImageTypes, Gen.c07RectilinearTypes, Gen.c07StructuredTypes,
-      gridDim, nonzeroExtents, hx, hy, hz, latticeType, gridConnectivity, pixelType] at hbase hlen hrow ⊢
+      gridDim, nonzeroExtents, hx, hy, hz, latticeType, normType, gridConnectivity, pixelType] at hbase hlen hrow ⊢
   all_goals first
     | exact ⟨hlen, hbase⟩
     | (refine ⟨(baseConnectivity _).map perm4,
@@ -584,4 +584,4 @@ theorem expand_length (ext loc : List Nat) : (expand ext loc).length = ext.lengt
     simp only [expand]
     split <;> simp [ih]
 
-end Fc
+end Fc.C07
